@@ -1,5 +1,5 @@
 from .. import facts
-from ..rules import algebra
+from ..rules import algebra, factors
 
 
 def run(ck):
@@ -8,3 +8,5 @@ def run(ck):
     algebra.r1_slots(ck, P)
     algebra.r2_float_factors(ck, P)
     algebra.r3_table_lengths(ck, P)
+    factors.r4_c_combiners(ck, P)
+    factors.r9_simd_combiners(ck, P)
